@@ -311,6 +311,13 @@ _EDITS = [
 for _pid, _a, _b in _EDITS:
     assert CLAIMS[_pid]["text"].count(_a) == 1, (_pid, _a[:60])
     CLAIMS[_pid]["text"] = CLAIMS[_pid]["text"].replace(_a, _b)
+CLAIMS["C03"]["technique"] = ("Lean 4 proof (ladder induction; the default-utility decision modelled and proved to provide a covering hot utility, "
+                              "the cold side refuted by a kernel-decided witness) + correspondence testing (assignment and defaults) "
+                              "+ closure/reachability oracle on service output")
+CLAIMS["C04"]["technique"] = ("Lean 4 proof of the reference optimum (closed-form ladder) and of supply-level / return-limit bounds of the "
+                              "code-shaped assignment + feasibility/optimality oracle on service output + correspondence")
+CLAIMS["C11"]["technique"] = ("Lean 4 proof over facts translated from the live package (mutable default arguments, shared-state writes by AST "
+                              "walk) + fresh-interpreter differential oracle over call histories")
 CLAIMS["C09"]["technique"] = ("Lean 4 proof (upper and lower bounds from the cascade closed form; lower bound conditional on zone feasibility) "
                               "+ site-level oracle + correspondence of the site cascade")
 
